@@ -196,7 +196,7 @@ mutual
     | .call args kwargs =>
       (args.map (fun a => fitsArg S F lim false lim.maxlevel a)).all id &&
       (kwargs.map (fun p => fitsArg S F lim false lim.maxlevel p.2)).all id
-    | .seg a => fitsArg S F lim true 0 a
+    | .seg a => fitsArg S F lim lim.plainSeg lim.segLevel a
     | .star => true
     | .starstar => true
   termination_by s => sizeOf s
@@ -207,7 +207,7 @@ def fitsSteps {L} (S : ScalarOps L) (F : FmtFacts) (lim : Limits) (steps : List 
   steps.all (fun s => fitsStep S F lim s)
 
 /-- limits no Python object reaches: only "every scalar is an expression" is left of `fitsArg` -/
-def unbounded : Limits := Limits.uniform (2 ^ 64)
+def unbounded (plainSeg : Bool) : Limits := Limits.uniform (2 ^ 64) plainSeg
 
 /-! ### the scalars of Python, concretely -/
 
@@ -315,11 +315,11 @@ def pyScalar : ScalarOps Scalar where
 /-! ### well-formedness of the extracted facts -/
 
 /-- read the limits the model uses out of the attribute table of the live `_BBRepr` instance -/
-def limitsOf (tbl : List (String × Nat)) : Limits :=
+def limitsOf (tbl : List (String × Nat)) (plainSeg : Bool) : Limits :=
   let g := fun (n : String) => (tbl.lookup n).getD 0
   { maxlevel := g "maxlevel", maxtuple := g "maxtuple", maxlist := g "maxlist", maxdict := g "maxdict",
     maxset := g "maxset", maxfrozenset := g "maxfrozenset", maxstring := g "maxstring",
-    maxlong := g "maxlong", maxother := g "maxother" }
+    maxlong := g "maxlong", maxother := g "maxother", plainSeg := plainSeg }
 
 /-- the three switches of `_format_t` (commit 0224102) are on; `_format_path` is given the root
     (commit 2a7aadd); the pickling tables name T, S, A;
@@ -337,9 +337,10 @@ structure Facts where
   limitTable : List (String × Nat)  -- the int attributes of the instance `bbrepr` is bound to
   fillvalue : String
   reprIsReprlib : Bool              -- `bbrepr` wraps the instance's `reprlib.Repr.repr`, `repr1` defers to `Repr.repr1`
+  segRepr : String                  -- the function `_format_path` prints a plain segment with: `repr` / `bbrepr`
   deriving Repr
 
-def Facts.lim (F : Facts) : Limits := limitsOf F.limitTable
+def Facts.lim (F : Facts) : Limits := limitsOf F.limitTable (F.segRepr != "bbrepr")
 
 /-- the size up to which the round trip is proved whatever the instance's limits are -/
 def minLimit : Nat := 1024
@@ -368,7 +369,7 @@ def wfLimits (F : Facts) : Bool :=
   (F.limitNames ++ modelLimitNames).all (fun n => match F.limitTable.lookup n with
     | some v => decide (minLimit ≤ v)
     | none => false) &&
-  F.fillvalue == "..." && F.reprIsReprlib
+  F.fillvalue == "..." && F.reprIsReprlib && (F.segRepr == "repr" || F.segRepr == "bbrepr")
 
 def WF (F : Facts) : Bool := wfFmt F && wfPickle F && wfSeq F && wfLimits F
 
@@ -377,7 +378,7 @@ def Limits.le (a b : Limits) : Bool :=
   decide (a.maxlevel ≤ b.maxlevel) && decide (a.maxtuple ≤ b.maxtuple) && decide (a.maxlist ≤ b.maxlist) &&
   decide (a.maxdict ≤ b.maxdict) && decide (a.maxset ≤ b.maxset) &&
   decide (a.maxfrozenset ≤ b.maxfrozenset) && decide (a.maxstring ≤ b.maxstring) &&
-  decide (a.maxlong ≤ b.maxlong) && decide (a.maxother ≤ b.maxother)
+  decide (a.maxlong ≤ b.maxlong) && decide (a.maxother ≤ b.maxother) && (a.plainSeg == b.plainSeg)
 
 /-! ### observations and checkers -/
 
